@@ -42,7 +42,8 @@ def solved_map(obs: Dict[str, Any]) -> Dict[str, Tuple[str, str]]:
 
 
 def dist_reqs(case: Dict[str, Any], key: str, version: str) -> Optional[List[Requirement]]:
-    for (cname, ver, reqs, readable) in case["universe"].get(key, []):
+    for cand in case["universe"].get(key, []):
+        cname, ver, reqs, readable = cand[:4]
         if Version(ver) == Version(version) and readable and canon(cname) == key:
             return [preq(t) for t in reqs]
     return None
@@ -229,8 +230,12 @@ def c09(case: Dict[str, Any], obs: Dict[str, Any]) -> Optional[str]:
         cands = case["universe"].get(k, [])
         spec_clauses = obs["spec"]
         spec = SpecifierSet(",".join(_clause_text(c) for c in spec_clauses))
+        ob = case.get("only_binary")
+        binary_only = ob == ":all:" or (isinstance(ob, list) and k in {canon(x) for x in ob})
         if cands and all(c[3] and canon(c[0]) == k for c in cands):
             for c in cands:
+                if binary_only and len(c) > 4 and c[4]:
+                    continue    # a source distribution of a project marked binary-only is not eligible
                 v = Version(c[1])
                 if not v.is_prerelease and spec.contains(v, prereleases=False):
                     return f"reported no candidate for {obs['name']}{spec} although {c[0]}=={c[1]} is offered, readable and satisfies it"
